@@ -45,10 +45,56 @@ def run(ctx, rep):
                 def __init__(self, bid, set_target):
                     self.id, self.succ = bid, [set_target]
 
-            def keys_of(tree):
+            def keys_direct(tree):
                 ks = [n.get("s") for n in walk(tree) if n.get("k") == "lit" and n.get("s") in tab["option_keys"]]
                 if ks and any(n.get("k") == "call" and short(n) == tab["option_test"] for n in walk(tree)):
                     return set(ks)
+                return set()
+
+            def helper_keys(callee):
+                """keys that are certainly set when the bool helper returns true: every return that can be
+                true is either the test itself (`return IsSet(k)`, conjunctions only) or dominated by the
+                set-edge of a test"""
+                from ..cfgutil import _strip_not as _sn
+                htests = []
+                for hb in callee.blocks.values():
+                    if hb.cond is None or len(hb.succ) != 2:
+                        continue
+                    ks = keys_direct(hb.cond)
+                    if not ks or any(n.get("k") == "bin" and n.get("op") == "||" for n in walk(hb.cond)):
+                        continue
+                    neg = isinstance(hb.cond, dict) and hb.cond.get("k") == "un" and hb.cond.get("op") == "!"
+                    htests.append((hb.id, hb.succ[1] if neg else hb.succ[0], ks))
+                result = None
+                for rb, rev in callee.returns():
+                    e = rev.get("e")
+                    while isinstance(e, dict) and e.get("k") in ("icast", "cast", "copy", "paren") and "v" not in e:
+                        e = e.get("e")
+                    if isinstance(e, dict) and e.get("v") == 0 and e.get("k") in ("lit", "icast"):
+                        continue                      # `return false`
+                    ks = set()
+                    for tid, tsucc, tk in htests:
+                        if tsucc is not None and callee.edge_dominates((tid, tsucc), rb.id):
+                            ks |= tk
+                    if isinstance(e, dict) and not (e.get("k") == "lit" and e.get("v") == 1):
+                        if any(n.get("k") == "bin" and n.get("op") == "||" for n in walk(e)) or \
+                                (isinstance(e, dict) and e.get("k") == "un" and e.get("op") == "!"):
+                            return set()
+                        ks |= keys_direct(e)
+                    result = ks if result is None else (result & ks)
+                return result or set()
+
+            def keys_of(tree):
+                ks = keys_direct(tree)
+                if ks:
+                    return ks
+                for n in walk(tree) if isinstance(tree, dict) else ():
+                    if n.get("k") == "call" and not n.get("virt") and n.get("ret") == "bool":
+                        tg = [t for t in F.targets(n) if "/draco/" in t.file]
+                        if len(tg) == 1 and not tg[0].cls or (len(tg) == 1 and tg[0].is_lambda):
+                            hk = helper_keys(tg[0])
+                            if hk:
+                                return hk
                 return set()
             from ..cfgutil import _strip_not
             bool_locals = {}    # decl id -> keys tested by its initialiser (`const bool explicit = IsSet(a) && IsSet(b);`)
